@@ -169,6 +169,42 @@ def run_prims(ctx):
             elif how == 2: pl.sort()
             else: pl.insert(0, "NEW%d" % step)
             b.seek(0); b.truncate(); written = []
+    # mixed sequences through one writer / one reader, with the reader's look-ahead (has_more_data) consulted 0-3 times before each read:
+    # peeking is idempotent, is True exactly while bytes remain, and never changes what is read next
+    from pyoda_time import Offset
+    for trial in range(150 if ctx.tier == "quick" else 4000):
+        pl = rng.choice([None, ["", "A", "STD"], ["-03", "Etc/GMT+3"]])
+        b = io.BytesIO(); w = W._ctor(b, None if pl is None else list(pl))
+        items = []
+        for _ in range(rng.randint(1, 7)):
+            kind = rng.choice(["count", "scount", "string", "millis", "byte", "offset"])
+            if kind == "count": v = rng.choice([0, 0, 1, 127, 128, rng.getrandbits(rng.choice([3, 14, 31]))]); w.write_count(v)
+            elif kind == "scount": v = rng.choice([0, -1, 1, 63, -64, rng.randint(-2**31, 2**31 - 1)]); w.write_signed_count(v)
+            elif kind == "string": v = rng.choice(["", "A", "STD", "-03", "x" * rng.randint(1, 130)]); w.write_string(v)
+            elif kind == "millis": v = rng.choice([0, -MS + 1 + 0, 1800000, -1800000, rng.randrange(-MS + 1, MS)]); w.write_milliseconds(v)
+            elif kind == "byte": v = rng.choice([0, 0, 1, 255, rng.randrange(256)]); w.write_byte(v)
+            else: v = rng.choice([0, -86400 + 1800 if False else -64800, 64800, rng.randrange(-64800, 64801)]); w.write_offset(Offset.from_seconds(v))
+            items.append((kind, v))
+        data = b.getvalue(); st = io.BytesIO(data)
+        r = R._ctor(st, None if pl is None else list(w._DateTimeZoneWriter__string_pool) if hasattr(w, "_DateTimeZoneWriter__string_pool") else pl)
+        case = {"kind": "peekseq", "items": [[k, v if not isinstance(v, str) else v[:8]] for k, v in items], "pool": pl is not None}
+        ctx.ev(); ctx.counters["peek_sequences"] += 1; ctx.key(("peekseq", len(items), pl is not None, data[:1] == b"\0"))
+        bad = None
+        try:
+            for kind, v in items:
+                for _ in range(rng.choice([0, 1, 2, 3])):
+                    if r.has_more_data is not True: bad = f"has_more_data is not True before reading {kind} {v!r}"; break
+                if bad: break
+                got = {"count": r.read_count, "scount": r.read_signed_count, "string": r.read_string, "millis": r.read_milliseconds, "byte": r.read_byte,
+                       "offset": lambda: r.read_offset().seconds}[kind]()
+                if got != v: bad = f"{kind} {v!r} read back as {got!r}"; break
+            if bad is None:
+                for _ in range(rng.choice([1, 2, 3])):
+                    if r.has_more_data is not False: bad = "has_more_data is not False at the end of the data"; break
+        except Exception as e:  # noqa: BLE001
+            ctx.exc(e); bad = f"raised {e!r}"
+        if bad:
+            ctx.V("C14:reader-lookahead-sequence", f"writing {case['items']} (pool={pl is not None}) gives {data[:24].hex()}; reading it back with look-ahead peeks: {bad}", case)
     ctx.sample({"kind": "millis", "v": 1800030, "compact_bytes": millis_len(1800030)})
 
 
